@@ -1436,7 +1436,7 @@ pub fn run(ctx: &Ctx) -> Evidence {
     let contents = std::env::var("VERIF_C09_CONTENTS")
         .ok()
         .and_then(|s| s.parse().ok())
-        .unwrap_or(ctx.tier.pick(3000usize, 15000usize));
+        .unwrap_or(ctx.tier.pick(3000usize, 60000usize));
     ev.rule = "each case = one generated store content (1-14 requests: set / cset chains / import of CAS entries with versions up to u64::MAX / delete / pdelete; random and directed keys and values: null, {\"Cas\":[x,n]} and {\"v\":..,\"t\":..} look-alikes, boundary and random doubles, nesting up to 126, unicode/control strings, keys with empty/unicode/format-tag segments and up to 70 levels) + registrations of 0-3 connected clients (overlapping grave goods, last wills over CAS values and shared keys, unparsable registrations), flushed by the real v3 flush, then loaded twice from each of 6 directories: v3 after one flush (toggle present), v3 after two flushes (toggle absent, earlier content in the other slot), and the flushed bytes re-laid-out as v2 (toggle present/absent, one or two slots) and v1 (main or backup files, toggle present/absent). Oracle: full read-back (pget #, cget per key, entry count, ls of every node, wildcard reads, $SYS empty) = model(snapshot at flush, all grave goods deleted, then last wills set; v1 has no registrations). A (content, layout) pair is non-trivial if the content has >= 2 keys and a CAS entry, a registration or a directed shape; distinct = distinct (content, layout).".into();
 
     let base = Rng::new(ctx.seed);
